@@ -26,6 +26,7 @@ import (
 	"sort"
 	"strconv"
 	"strings"
+	"sync"
 	"time"
 
 	"github.com/docker/docker/api/types"
@@ -1314,6 +1315,100 @@ func (h *c14h) longSequences() {
 	}
 }
 
+// burstThroughResultChan: the path every packet scan takes - the receiver Puts results into the real
+// scan.ResultChan (capacity 1000, as the commands create it), the logger drains it. 5000 results are
+// produced by ONE goroutine while the writer is stalled for the first 100 ms, so the queue is full and
+// the producer has to wait: the lines still appear in production order, each exactly once.
+func (h *c14h) burstThroughResultChan() {
+	h.cur = "sequences/burst of 5000 through scan.ResultChan with a stalled writer"
+	if !h.next() {
+		return
+	}
+	h.c.Eval(1)
+	h.c.Nontrivial(1)
+	const n = 5000
+	ctx, cancel := context.WithCancel(context.Background())
+	defer cancel()
+	rc := scan.NewResultChan(ctx, 1000)
+	w := &c14stallWriter{release: make(chan struct{})}
+	lg, err := NewLogger(w, "c14", JSON())
+	if err != nil {
+		h.c.Infra("NewLogger: %v", err)
+		return
+	}
+	logged := make(chan struct{})
+	go func() {
+		lg.LogResults(ctx, rc.Chan())
+		close(logged)
+	}()
+	produced := make(chan struct{})
+	go func() {
+		for i := 0; i < n; i++ {
+			rc.Put(&arp.ScanResult{IP: fmt.Sprintf("10.1.%d.%d", i>>8, i&255), MAC: "02:00:00:00:00:01", Vendor: fmt.Sprintf("seq-%d", i)})
+		}
+		close(produced)
+	}()
+	time.Sleep(100 * time.Millisecond)
+	close(w.release)
+	key := "seq:arp:resultchan-burst"
+	select {
+	case <-produced:
+	case <-time.After(30 * time.Second):
+		h.c.Fail(key+":producer-stuck", "5000 results could not be handed to scan.ResultChan within 30 s although the logger drains it", nil)
+		return
+	}
+	deadline := time.Now().Add(30 * time.Second)
+	for w.lines() < n && time.Now().Before(deadline) {
+		time.Sleep(5 * time.Millisecond)
+	}
+	cancel()
+	<-logged
+	lines, term := c14split(w.bytes())
+	bad := ""
+	if !term {
+		bad = "output does not end in a newline"
+	} else if len(lines) != n {
+		bad = fmt.Sprintf("%d results were produced, %d lines printed", n, len(lines))
+	} else {
+		for i, ln := range lines {
+			want := fmt.Sprintf(`"vendor":"seq-%d"`, i)
+			if !bytes.Contains(ln, []byte(want)) {
+				bad = fmt.Sprintf("line %d is not result %d (lines are out of production order or lost): %q", i+1, i, c14clip(ln))
+				break
+			}
+		}
+	}
+	if bad != "" {
+		h.c.Outcome("seq:FAIL:resultchan-burst")
+		h.c.Fail(key, "5000 results through scan.ResultChan(1000) into the JSON logger, writer stalled for the first 100 ms: "+bad, map[string]any{"part": "c14", "kind": "resultchan-burst"})
+		return
+	}
+	h.c.Outcome("seq:ok-resultchan-burst")
+}
+
+type c14stallWriter struct {
+	mu      sync.Mutex
+	buf     bytes.Buffer
+	release chan struct{}
+}
+
+func (w *c14stallWriter) Write(p []byte) (int, error) {
+	<-w.release
+	w.mu.Lock()
+	defer w.mu.Unlock()
+	return w.buf.Write(p)
+}
+func (w *c14stallWriter) lines() int {
+	w.mu.Lock()
+	defer w.mu.Unlock()
+	return bytes.Count(w.buf.Bytes(), []byte{'\n'})
+}
+func (w *c14stallWriter) bytes() []byte {
+	w.mu.Lock()
+	defer w.mu.Unlock()
+	return append([]byte(nil), w.buf.Bytes()...)
+}
+
 // ---------------------------------------------------------------------------------------------
 
 func verifC14(c *drv.Ctx) {
@@ -1336,6 +1431,7 @@ func verifC14(c *drv.Ctx) {
 	h.values()
 	h.sequences()
 	h.longSequences()
+	h.burstThroughResultChan()
 	if c.Shard == 0 {
 		names := make([]string, 0, len(h.sweeps))
 		for n := range h.sweeps {
